@@ -340,6 +340,8 @@ func C10() int {
 
 	// fail closed: unusable key material handed to the redactor through the API
 	c10Unusable(s, c, g)
+	// one key FILE, two separate runs: whatever state the file is in, runs that succeed agree byte for byte
+	c10KeyFileStates(s, c, g)
 
 	c.Set("keys", len(keys))
 	c.Set("flag_sets", flagNames(fsetsPairs))
@@ -444,4 +446,53 @@ func clsOf(n *jt.Node) string {
 		return n.T.Class
 	}
 	return n.T.Role.String()
+}
+
+// c10KeyFileStates: "with one key file, equal plaintexts give equal ciphertexts across separate
+// runs" — also when the file at the key path is blank, padded or freshly created by the first of the
+// two runs. A state the tool refuses (non-zero exit, no output) is C11's subject and only counted.
+func c10KeyFileStates(s *sut.SUT, c *ev.Check, g *gen.Gen) {
+	items := CoreCorpus(g, 60)
+	var buf bytes.Buffer
+	for _, it := range items[:60] {
+		buf.Write(it.Raw)
+		buf.WriteByte('\n')
+	}
+	states := map[string]*string{"absent": nil, "valid": sp(TestKeyB64), "valid+LF": sp(TestKeyB64 + "\n"), "empty": sp(""), "blank": sp(" \n"), "tab": sp("\t"), "LF-only": sp("\n")}
+	names := sortedKeys(states)
+	parallelDo(len(names), func(i int) {
+		st := names[i]
+		dir := s.TempDir("c10k")
+		defer os.RemoveAll(dir)
+		kp := filepath.Join(dir, "k.key")
+		if states[st] != nil {
+			os.WriteFile(kp, []byte(*states[st]), 0o600)
+		}
+		in := filepath.Join(dir, "in.log")
+		os.WriteFile(in, buf.Bytes(), 0o644)
+		var outs [][]byte
+		var exits []int
+		for r := 0; r < 3; r++ {
+			outp := filepath.Join(dir, fmt.Sprintf("out%d.log", r))
+			res := s.CLI(sut.Run{Args: []string{"redact", "--encrypt", "-q", kp, "-o", outp, in}, Dir: dir})
+			if res.TimedOut {
+				c.Inconclusive("watchdog")
+				return
+			}
+			b, _ := os.ReadFile(outp)
+			outs, exits = append(outs, b), append(exits, res.Exit)
+		}
+		c.Count("key_file_state_runs", 3)
+		c.Eval("keyfile-state|" + st)
+		for r := 1; r < 3; r++ {
+			if exits[r] == 0 && exits[0] == 0 && !bytes.Equal(outs[r], outs[0]) {
+				c.Violation("runs-with-one-key-file-differ|"+st, fmt.Sprintf("key file state %q: runs 1 and %d over the same input with the same key path both succeed but their outputs differ (equal plaintexts, different ciphertexts)", st, r+1),
+					map[string]any{"key_file_state": st, "exits": exits})
+				return
+			}
+		}
+		if exits[0] != 0 {
+			c.Count("key_file_states_refused", 1)
+		}
+	})
 }
